@@ -11,7 +11,7 @@ from .. import sampler_driver as drv
 
 PID = "C10"
 N = 6
-OPS = ["mll", "rej_inmem", "rej_file", "rej_int", "iter_inmem", "iter_file", "prior_sample", "prior_sample_lin"]
+OPS = ["mll", "rej_inmem", "rej_file", "rej_int", "iter_inmem", "iter_file", "prior_sample", "prior_sample_lin", "prior_sample_alias"]
 
 
 def _digest(x):
@@ -54,6 +54,9 @@ def apply_op(joker, op, lib_obj, lib_path, data=None):
         return joker.iterative_rejection_sample(data, lib_obj, n_requested_samples=2, init_batch_size=2, randomize_prior_order=True, n_batches=2)
     if op == "prior_sample":
         return joker.prior.sample(size=3, rng=joker.rng)
+    if op == "prior_sample_alias":
+        # the generator handed over under the (deprecated, still accepted) keyword random_state
+        return joker.prior.sample(size=3, random_state=joker.rng)
     if op == "prior_sample_lin":
         # the other variant of the draw (linear parameters too), with log-probabilities
         return joker.prior.sample(size=2, generate_linear=True, return_logprobs=True, rng=joker.rng)
@@ -85,7 +88,7 @@ def run_history(hist, seed, gseed, pool_spec=("serial",), pool=None):
         if op != "mll":
             import astropy.units as u
 
-            if op in ("rej_int", "prior_sample", "prior_sample_lin"):
+            if op in ("rej_int", "prior_sample", "prior_sample_lin", "prior_sample_alias"):
                 fr["P"] = np.atleast_1d(out["P"].to_value(u.day)).tolist()  # prior draws made by this call
             if "K" in out.par_names:
                 fr["K"] = np.atleast_1d(out["K"].to_value(u.km / u.s)).tolist()  # linear draws made by this call
@@ -323,7 +326,7 @@ def build(quick, seed):
 def main():
     chk = core.Check(
         PID, "model_checking",
-        "all call histories of depth<=2 (quick) / 3 over 8 operations {marginal_ln_likelihood (file), rejection (in memory), rejection "
+        "all call histories of depth<=2 (quick) / 3 over 9 operations {marginal_ln_likelihood (file), rejection (in memory), rejection "
         "(file, batches, randomised order), rejection with an integer prior-sample count, iterative (in memory / file), prior.sample(rng)} "
         "on ONE TheJoker (stub kernel, real prior): each history is run twice with equal seeds and once more with numpy's and Python's "
         "global generators seeded differently; outputs are compared bitwise per step and the global states before/after every step; a "
